@@ -7,7 +7,7 @@ A mesh is given by its normalised connectivity (what `Mesh2DTopology.face_node_a
 `face_edge_array` hold after `.compressed()`): zero-based, fill values removed.
 Total, computable, core Lean only.
 -/
-namespace Ems
+namespace Ems.Clip
 
 /-- insert into a strictly ascending list, dropping a duplicate -/
 def insertU (x : Nat) : List Nat → List Nat
@@ -18,7 +18,7 @@ def insertU (x : Nat) : List Nat → List Nat
 def sortU (l : List Nat) : List Nat := l.foldr insertU []
 
 /-- The part of `Mesh2DTopology` the clip mask reads. -/
-structure Mesh where
+structure FaceMesh where
   /-- `topology.node_count` -/
   nNodes : Nat
   /-- rows of `topology.face_node_array`, compressed -/
@@ -29,28 +29,28 @@ structure Mesh where
   faceEdges : List (List Nat)
 deriving Repr
 
-namespace Mesh
+namespace FaceMesh
 
-def nFaces (m : Mesh) : Nat := m.faces.length
+def nFaces (m : FaceMesh) : Nat := m.faces.length
 /-- `face_node[f].compressed()`; an out-of-range face has no nodes -/
-def faceNodes (m : Mesh) (f : Nat) : List Nat := m.faces.getD f []
+def faceNodes (m : FaceMesh) (f : Nat) : List Nat := m.faces.getD f []
 /-- `face_edge[f].compressed()` -/
-def faceEdgesOf (m : Mesh) (f : Nat) : List Nat := m.faceEdges.getD f []
+def faceEdgesOf (m : FaceMesh) (f : Nat) : List Nat := m.faceEdges.getD f []
 
 /-- `buffer_faces(face_indexes, topology)`:
 `included_nodes` = all nodes of the given faces; the result enumerates the faces in index
 order, keeping those that were given or that contain an included node. -/
-def bufferFaces (m : Mesh) (F : List Nat) : List Nat :=
+def bufferFaces (m : FaceMesh) (F : List Nat) : List Nat :=
   let includedNodes := F.flatMap m.faceNodes
   (List.range m.nFaces).filter fun f =>
     F.contains f || (m.faceNodes f).any fun n => includedNodes.contains n
 
 /-- `for _ in range(buffer): face_indexes = buffer_faces(face_indexes, topology)` -/
-def bufferIter (m : Mesh) : Nat → List Nat → List Nat
+def bufferIter (m : FaceMesh) : Nat → List Nat → List Nat
   | 0, F => F
   | b + 1, F => bufferIter m b (m.bufferFaces F)
 
-end Mesh
+end FaceMesh
 
 /-- `new_indexes[indexes] = numpy.arange(len(indexes))`, position by position:
 entry `indexes[k]` receives `k` (counting from `k0`). -/
@@ -73,28 +73,28 @@ deriving DecidableEq, Repr
 
 /-- `mask_from_face_indexes(face_indexes, topology)`, literally: faces are numbered in the
 order of the given list; edges and nodes of the given faces through `sort(unique(…))`. -/
-def maskFromFaceIndexes (m : Mesh) (F : List Nat) : MeshMask :=
+def maskFromFaceIndexes (m : FaceMesh) (F : List Nat) : MeshMask :=
   { newFace := newElementIndexes m.nFaces F
     newEdge := m.nEdges.map fun ne => newElementIndexes ne (sortU (F.flatMap m.faceEdgesOf))
     newNode := newElementIndexes m.nNodes (sortU (F.flatMap m.faceNodes)) }
 
 /-- The faces a clip keeps: the hits (put in index order) grown by `buffer` rings. -/
-def keptFaces (m : Mesh) (hits : List Nat) (buffer : Int) : List Nat :=
+def keptFaces (m : FaceMesh) (hits : List Nat) (buffer : Int) : List Nat :=
   m.bufferIter buffer.toNat (sortU hits)
 
 /-- `UGrid.make_clip_mask` as the property demands it: the hit list, in whatever order
 the spatial index returns it, is put in index order before the faces are numbered. -/
-def ugridClipMask (m : Mesh) (hits : List Nat) (buffer : Int) : MeshMask :=
+def ugridClipMask (m : FaceMesh) (hits : List Nat) (buffer : Int) : MeshMask :=
   maskFromFaceIndexes m (keptFaces m hits buffer)
 
 /-- `UGrid.make_clip_mask` of the pinned tree: the hit list goes to
 `mask_from_face_indexes` as it arrives (DESIGN.md finding F1). -/
-def ugridClipMaskCurrent (m : Mesh) (hits : List Nat) (buffer : Int) : MeshMask :=
+def ugridClipMaskCurrent (m : FaceMesh) (hits : List Nat) (buffer : Int) : MeshMask :=
   maskFromFaceIndexes m (m.bufferIter buffer.toNat hits)
 
-end Ems
+end Ems.Clip
 
-namespace Ems
+namespace Ems.Clip
 
 /-- Decidable form of "kept elements are numbered contiguously in their original order":
 walking the table in old-index order, the kept entries read `0, 1, 2, …`. -/
@@ -105,4 +105,4 @@ def rankOKFrom : Nat → List (Option Nat) → Bool
 
 def rankOK (t : List (Option Nat)) : Bool := rankOKFrom 0 t
 
-end Ems
+end Ems.Clip
